@@ -518,17 +518,36 @@ def rule_r6(ctx, an: Anchors, gs: GenBranch, ga: GenBranch) -> None:
     rep.floor("C04.R6", n, 2)
 
 
+def rule_miss_after_factories(ctx, an: Anchors, rule: str = "C04.R1") -> None:
+    """A lookup gives up (None for optional, ResourceNotFound otherwise) only after it has
+    consulted the factory table: `optional=True` must not short-cut the generation."""
+    rep = ctx.rep
+    a = ctx.a
+    for name in ("get_resource_nowait", "get_resource"):
+        f = an.ctx_method(name)
+        cfg = a.cfg(f)
+        fac_nodes = [n.id for n in cfg.live_nodes() if cfg.own_ast(n) is not None and any(isinstance(e, ast.Attribute) and e.attr == an.factory_table and isinstance(e.ctx, ast.Load) for e in iter_own(cfg.own_ast(n)))]
+        misses = [n for n in cfg.live_nodes() if n.kind == "stmt" and ((isinstance(n.ast, ast.Return) and (n.ast.value is None or is_const(n.ast.value, None))) or (isinstance(n.ast, ast.Raise) and n.ast.exc is not None and "ResourceNotFound" in ast.unparse(exc_expr(n.ast))))]
+        if not fac_nodes or not misses:
+            rep.unrecognised(rule, f, f.node, "lookup without a factory-table read / without a miss exit")
+            continue
+        bad = [m for m in misses if not cfg.all_paths_pass(cfg.entry, [m.id], fac_nodes, edge_ok=lambda s_, d_, lab: lab not in ("e", "h") or s_.id in fac_nodes)]
+        rep.check(rule, not bad, f, bad[0].ast if bad else misses[0].ast, f"every miss exit of {name} ({len(misses)}) comes after the factory table was consulted", f"{name} can report a miss (`{ast.unparse(bad[0].ast) if bad else ''}`) without having looked for a factory: an optional lookup never triggers the factory, so the lookup paths disagree on what is visible")
+
+
 def sync_async_agreement(ctx) -> None:
     """R1 + R3 only (used by C02: all lookup paths agree on what is visible)."""
     an = Anchors(ctx.a)
     gs, ga = rule_r1(ctx, an)
     if gs.ok and ga.ok:
         rule_r3(ctx, an, gs)
+    rule_miss_after_factories(ctx, an, "C04.R3")
 
 
 def run(ctx) -> None:
     an = Anchors(ctx.a)
     gs, ga = rule_r1(ctx, an)
+    rule_miss_after_factories(ctx, an)
     rule_r2(ctx, an)
     if gs.ok and ga.ok:
         rule_r3(ctx, an, gs)
